@@ -326,6 +326,30 @@ template<int C, int R, class T> void qr_ops() {
       M<C, R, T> n(T(1)); n[0][0] = std::numeric_limits<T>::infinity(); qr_one<C, R, T>(n); }
 }
 
+// ------------------------------------------------------------------ the other precision qualifiers (thorough tier): a sample of every group
+template<glm::qualifier Q> void qual_ops(const char* qn) {
+    typedef glm::mat<3, 3, float, Q> F3; typedef glm::mat<4, 2, double, Q> D42; typedef glm::mat<4, 4, double, Q> D4; typedef glm::mat<2, 3, int, Q> I23;
+    for (int s = 0; s < 8; ++s) {
+        F3 p(perm_matrix<3, float>(s + 5)); float e = dy<float>(1, -int(rint_(2, 12))); F3 ps = p * (1.0f + 2.0f * e);
+        { bool r = glm::isNull(ps, e); EVS("isNull", float, 3, 3).str("q", qn).arg(ps).arg(e).res(r).emit(); }
+        { bool r = glm::isNormalized(ps, e); EVS("isNormalized", float, 3, 3).str("q", qn).arg(ps).arg(e).res(r).emit(); }
+        { bool r = glm::isIdentity(ps, e); EVS("isIdentity", float, 3, 3).str("q", qn).arg(ps).arg(e).res(r).emit(); }
+        { bool r = glm::isOrthogonal(ps, e); EVS("isOrthogonal", float, 3, 3).str("q", qn).arg(ps).arg(e).res(r).emit(); }
+        F3 a(m_int<3, 3, float>(9, int(rint_(-4, 4))));
+        { F3 r = glm::adjugate(a); EVN("adj", float, 3).str("q", qn).arg(a).res(r).emit(); }
+        { F3 r = glm::flipud(a); EVS("flipud", float, 3, 3).str("q", qn).arg(a).res(r).emit(); }
+        { glm::vec<3, float, Q> r = glm::row(a, s % 3); EVS("rowget", float, 3, 3).num("i", s % 3).str("q", qn).arg(a).res(r).emit(); }
+        { F3 q(0.0f), r(0.0f); glm::qr_decompose(a, q, r); EVS("qr", float, 3, 3).str("q", qn).arg(a).val("q", q).val("r", r).emit(); }
+        D42 b(m_int<4, 2, double>(200, -6));
+        { glm::mat<2, 2, double, Q> q(0.0); D42 r(0.0); glm::qr_decompose(b, q, r); EVS("qr", double, 4, 2).str("q", qn).arg(b).val("q", q).val("r", r).emit(); }
+        { glm::mat<2, 2, double, Q> r(0.0); D42 q(0.0); glm::rq_decompose(b, r, q); EVS("rq", double, 4, 2).str("q", qn).arg(b).val("r", r).val("q", q).emit(); }
+        { D42 y(m_int<4, 2, double>(50, -3)); double w = double(rint_(0, 8)) / 8.0; D42 r = glm::mix(b, y, w); EVS("mixs", double, 4, 2).str("q", qn).arg(b).arg(y).arg(w).res(r).emit(); }
+        D4 c(m_int<4, 4, double>(9)); { D4 r = glm::adjugate(c); EVN("adj", double, 4).str("q", qn).arg(c).res(r).emit(); }
+        I23 im(m_seq<2, 3, int>(s)); { glm::mat<3, 2, int, Q> r = glm::transpose(im); EVS("itr", int, 2, 3).str("q", qn).arg(im).res(r).emit(); I23 f = glm::fliplr(im); EVS("fliplr", int, 2, 3).str("q", qn).arg(im).res(f).emit(); }
+        glm::vec<3, float, Q> x(v_int<3, float>(40)); { F3 r = glm::matrixCross3(x); EVN("cross", float, 3).str("q", qn).arg(x).res(r).emit(); }
+    }
+}
+
 // ------------------------------------------------------------------ drivers
 template<class T> void data_type() {            // pure data movement: every element type
 #define SH(C, R) access_ops<C, R, T>(); diag_ops<C, R, T>();
@@ -351,6 +375,6 @@ static void body(int argc, char** argv) {
     data_type<int>(); data_type<unsigned int>(); cross_ops<int>(); cross_ops<unsigned int>();
     int_type<glm::int32>(); int_type<glm::uint32>(); int_type<glm::int8>(); int_type<glm::uint8>(); int_type<glm::int16>(); int_type<glm::uint16>(); int_type<glm::int64>(); int_type<glm::uint64>();
     common_ops<2, 2, int>(); common_ops<3, 4, int>(); common_ops<4, 4, int>(); common_ops<4, 3, unsigned int>(); common_ops<2, 3, unsigned int>();
-    if (g_thorough) { data_type<glm::int8>(); data_type<glm::uint16>(); data_type<glm::int64>(); data_type<glm::uint64>(); cross_ops<glm::int64>(); cross_ops<glm::int16>(); }
+    if (g_thorough) { qual_ops<glm::lowp>("l"); qual_ops<glm::mediump>("m"); data_type<glm::int8>(); data_type<glm::uint16>(); data_type<glm::int64>(); data_type<glm::uint64>(); cross_ops<glm::int64>(); cross_ops<glm::int16>(); }
 }
 int main(int argc, char** argv) { return run_main(argc, argv, body); }
